@@ -24,7 +24,7 @@ import (
 )
 
 func init() {
-	register(&Prop{ID: "C16", Module: "V.C16.Check", Gen: c16Gen, Quick: 1500, Thorough: 20000, Shard: 800})
+	register(&Prop{ID: "C16", Module: "V.C16.Check", Gen: c16Gen, Quick: 600, Thorough: 20000, Shard: 600})
 	genFiles["C16Colors.v"] = c16GenTables
 }
 
@@ -430,22 +430,12 @@ func c16Run(ctx string, k c16Kw, src string) (o c16Obs) {
 // ---------------------------------------------------------------- known-finding signatures (on the INPUT)
 
 func c16KF(ctx string, k c16Kw, v string) []string {
+	// Repaired by 0fc4ab54b and no longer tagged: negative width/height, NaN opacity, long-s shapes,
+	// near: <constant>.<more>.  Still open: object shapes on arrowheads.
 	var kf []string
-	switch k.name {
-	case "width", "height":
-		if n, err := strconv.Atoi(v); err == nil && n < 0 {
-			kf = append(kf, "C16-negative-size")
-		}
-	case "opacity":
-		if strings.EqualFold(v, "nan") {
-			kf = append(kf, "C16-opacity-nan")
-		}
-	case "shape":
+	if k.name == "shape" && ctx == "CArrow" && v != "" {
 		l := strings.ToLower(v)
-		_, isAH := d2target.Arrowheads[l]
-		if strings.Contains(v, "ſ") && v != "" && d2target.IsShape(l) {
-			kf = append(kf, "C16-shape-long-s")
-		} else if ctx == "CArrow" && v != "" && d2target.IsShape(l) && !isAH {
+		if _, isAH := d2target.Arrowheads[l]; d2target.IsShape(l) && !isAH {
 			kf = append(kf, "C16-arrowhead-object-shape")
 		}
 	}
@@ -616,6 +606,11 @@ func c16PosVals() []string {
 }
 
 func c16Family(v string, fam map[string]string) string { return fam[v] }
+
+// c16FloatForm: spellings only strconv.ParseFloat could accept (never Atoi)
+func c16FloatForm(v string) bool {
+	return strings.ContainsAny(v, ".eExXpP_") || strings.ContainsAny(strings.ToLower(v), "naif")
+}
 
 // ---------------------------------------------------------------- random values
 
@@ -948,7 +943,7 @@ func c16Gen(r *Rng, tier string, n int) []Case {
 
 	// 2. exhaustive table keyword x value x context: every value of the keyword's own family plus a fixed
 	//    cross-family sample.  Quick tier: the primary context gets every value, the other contexts a
-	//    rotating quarter; thorough: everything (and the full cross product of families).
+	//    rotating eighth; thorough: everything (and the full cross product of families).
 	cross := []string{"0", "1", "-1", "16", "8", "100", "true", "false", "TRUE", "red", "Red", "#fff", "NaN", "circle", "none", "mono",
 		"up", "dots", "uppercase", " ", "x", "0.5", "1e0", "triangle", "default", "linear-gradient(red, blue)", "\xff", "ſ"}
 	rot := r.U64() % 30
@@ -974,7 +969,11 @@ func c16Gen(r *Rng, tier string, n int) []Case {
 			for vi, v := range vals {
 				own := fam[v] == kfam
 				switch {
-				case tier != "thorough" && ci > 0 && (vi+ki+ci)%4 != 0:
+				case tier != "thorough" && ci > 0 && (vi+ki+ci)%8 != 0:
+					continue
+				// quick: integer keywords see every integer spelling but only a rotating third of the
+				// float-only spellings (exponents, hex floats, underscores, Inf/NaN), which Atoi rejects alike
+				case tier != "thorough" && k.family == "num" && own && c16FloatForm(v) && (vi+ki)%3 != 0:
 					continue
 				// thorough: the keyword's family in every context; the other families completely in the
 				// primary context, a rotating fifth of them (by seed) in the other contexts.
@@ -1116,11 +1115,6 @@ func c16NearCases(r *Rng, tier string, n int, posVals []string) []Case {
 		}
 		_, isConst := d2ast.NearConstants[v]
 		c.Nontrivial = accepted || isConst || strings.Contains(v, "-")
-		if accepted && pok && len(ppath) > 1 {
-			if _, ok := d2ast.NearConstants[ppath[0]]; ok {
-				c.KF = append(c.KF, "C16-near-constant-prefix")
-			}
-		}
 		c.Coq = fmt.Sprintf("CaseNear %s %s %s %d %s", coqBytes(v), c16CoqPath(pok, ppath), coqBool(accepted), errClass,
 			c16CoqPath(accepted && stored != nil, stored))
 		impl := map[string]any{"accepted": accepted, "err_class": errClass, "parsed_path": ppath}
